@@ -105,9 +105,9 @@ PLAN = {
               "A third of the cases carry a property history on the columns (skipable set, replaced and removed again, interleaved with alignment and user properties): the last setting wins and nil removes. Non-trivial: a separator is first/last/repeated/alone, a skipable column has an empty cell, a header needs escaping, or the empty-object fallback applies. Distinct: FNV-64 of the case."),
         level_text="Generated-input search with a round-trip oracle (decode with encoding/json's token stream and compare with the model). Exploration level.",
         level_note="Trusts encoding/json as the definition of 'valid JSON' and of 'the JSON encoding of the item', and the model's text form for emptiness. Header texts are valid UTF-8 (JSON cannot carry other bytes).",
-        technique="property-based testing (rapid), model-based round-trip through encoding/json's decoder",
+        technique="property-based testing (rapid), model-based round-trip through encoding/json's decoder + native Go fuzzing",
         quick=[rapid("prop", "TestProp", 10000)],
-        thorough=[rapid("prop", "TestProp", 300000, shards=16)],
+        thorough=[rapid("prop", "TestProp", 300000, shards=16), fuzz("fuzz", "FuzzC07", 60)],
     ),
     "C08": dict(
         pkg="c08",
